@@ -154,6 +154,24 @@ PluralAdversarial ==
     { Double("plural-adv", "any", << E(b \o "_one", AnyNode(k1)), E(b \o "_other", AnyNode(k2)) >>, << E(b \o "_one", AnyNode(k2)), E(b \o "_other", AnyNode(k1)) >>)
       : b \in {"k", "k_ordinal"}, k1 \in AnyKinds, k2 \in AnyKinds }
 
+\* names inside values: variables and components whose names are dashed, keywords, digits, empty; at top level, inside a
+\* dashed subkey group, inside a range branch, inside a plural form, and as the argument name of a foreign key
+OddNames == { <<"x">>, <<"m","y","DASH","v">>, <<"t","y","p","e">>, <<"s","e","l","f">>, <<"1">>, <<>>, <<"a","SP","b">>, <<"c","o","u","n","t">>,
+              <<"S","e","l","f">>, <<"US">>, <<"a","DOT","b">>, <<"E1">> }
+VarOf(n) == <<"LB", "LB", "SP">> \o n \o <<"SP", "RB", "RB">>
+CompOf(n) == <<"LT">> \o n \o <<"GT", "x", "LT", "SL">> \o n \o <<"GT">>
+NameValues(n) == { VarOf(n), CompOf(n), CompOf(n) \o VarOf(n) }
+NamePairs == UNION { { <<n, v>> : v \in NameValues(n) } : n \in OddNames }
+NameAdvOf(k, n, v) ==
+            { Single("name-adv", "any", << E(k, S(v)) >>),
+              Single("name-adv", "any", << E("g-h", MapNode(<< E(k, S(v)) >>)) >>),
+              Single("name-adv", "any", << E(k, RangeSeq(<<>>, << Br(v, <<"0">>), Fb(<<"y">>) >>)) >>),
+              Single("name-adv", "any", << E(k \o "_one", S(v)), E(k \o "_other", S(<<"y">>)) >>),
+              Single("name-adv", "any", << E("t", S(VarOf(n))), E(k, S(FkArgs(<<"t">>, StrArg(n, <<"A">>)))) >>),
+              Double("name-adv", "any", << E(k, S(v)) >>, << E(k, S(<<"p","l","a","i","n">>)) >>),
+              Double("name-adv", "any", << E(k, S(<<"p","l","a","i","n">>)) >>, << E(k, S(v)) >>) }
+NameAdversarial == UNION { NameAdvOf(k, nv[1], nv[2]) : k \in {"k", "a-b"}, nv \in NamePairs }
+
 \* nesting depth n (recursion of the splitter is inherent in nesting)
 DeepNest(n) == <<
   Single("nested-comps-" \o ToString(n), "ok", << E("a", S(NestedComps(n))) >>)
